@@ -34,6 +34,11 @@ def run(ctx):
     ctx.rule("R11.4", "CLI layer: fs-event-kind filter, then the globset filterer, then filter programs; FileEventKind -> FsEvent table over the "
                       "enumerated kind domain")
     try:
+        from .. import evrules
+        evrules.accessor(ctx, "R11.1", "paths")     # "the paths of an event" = exactly its Tag::Path tags
+    except Skip:
+        pass
+    try:
         ce = ctx.anchor_one("R11.1", "<GlobsetFilterer as Filterer>::check_event", facts.trait_methods(GF, "Filterer", "check_event"))
         root = thir.root(ce)
         pathx.SUBST = pathx.let_substitutions(root)
